@@ -205,7 +205,7 @@ def run(ck):
                          "sealed operand not guarded: table %s entry %s position %d observed %s" % (b[0], b[1], b[2], b[3]),
                          {"program": b[4], "observed": b[3], "expected": "Blame / TailAccess (Value for seq, unseal with the matching key)"})
         ck.coverage["internal_or_unreachable_entries"] = [(n, p, k) for (t, n, p, k) in rows if k in ("Internal", "Unreachable")]
-    ck.coq("Props.C11", extra_targets=["Seal/Print.vo"], clean=(ck.tier == "thorough"))
+    ck.coq("Props.C11", extra_targets=["Seal/Print.vo"], clean=(ck.tier == "thorough" and not os.environ.get("VERIF_NO_CLEAN")))
     exe_model = ck.model("C11.v")
     if not ok or not exe_model:
         return
